@@ -17,6 +17,7 @@ import (
 	"path/filepath"
 	"runtime"
 	"strconv"
+	"strings"
 	"time"
 )
 
@@ -78,20 +79,20 @@ func famRepro(tr *Trace, scratch string, seed int64, tier string, nfpmBin string
 			pc.Nodes = append(pc.Nodes, Node{P: "src/large.bin", Kind: "file", Mode: 0o644, Mt: 1400000000, Size: len(b), data: b, Cid: cidOf(b)})
 			c.Entries = append(c.Entries, Entry{Type: "file", Src: "src/large.bin", Dst: "/opt/repro/large.bin"})
 		}
-		if i == 3 { // a glob relative to the working directory that matches dot files and a dot directory
-			for _, dn := range []struct{ p, body string }{{"dots/.env", "A=1\n"}, {"dots/.cache/x", "x\n"}, {"dots/plain", "p\n"}} {
+		if i == 3 { // globs relative to the working directory itself, matching dot files and a dot directory
+			for _, dn := range []struct{ p, body string }{{".env", "A=1\n"}, {".cache/x", "x\n"}, {".cache/.y", "y\n"}} {
 				b := []byte(dn.body)
 				pc.Nodes = append(pc.Nodes, Node{P: dn.p, Kind: "file", Mode: 0o644, Mt: 1400000001, Size: len(b), data: b, Cid: cidOf(b)})
 			}
-			pc.Nodes = append(pc.Nodes, Node{P: "dots", Kind: "dir", Mode: 0o755, Mt: 1400000001}, Node{P: "dots/.cache", Kind: "dir", Mode: 0o755, Mt: 1400000001})
-			c.Entries = append(c.Entries, Entry{Type: "file", Src: "dots/*", Dst: "/opt/dots"}, Entry{Type: "file", Src: "dots/.c*", Dst: "/opt/dots2"})
+			pc.Nodes = append(pc.Nodes, Node{P: ".cache", Kind: "dir", Mode: 0o755, Mt: 1400000001})
+			c.Entries = append(c.Entries, Entry{Type: "file", Src: ".e*", Dst: "/opt/dots"}, Entry{Type: "file", Src: ".c*", Dst: "/opt/dots2"})
 			c.NoGlob = false
 		}
 		Materialise(pc.Root, pc.Nodes)
 		if c.Changelog != nil {
 			must(os.WriteFile(filepath.Join(pc.Root, "changelog.yaml"), []byte(c.ChangelogYAML()), 0o644))
 		}
-		r := &rc{pc: pc, yAbs: c.YAML(pc.Root), yRel: c.YAML(".")}
+		r := &rc{pc: pc, yAbs: c.YAML(pc.Root), yRel: strings.ReplaceAll(c.YAML("\x00REL"), "\x00REL/", "")}
 		must(os.WriteFile(filepath.Join(pc.Root, "nfpm-abs.yaml"), []byte(r.yAbs), 0o644))
 		must(os.WriteFile(filepath.Join(pc.Root, "nfpm-rel.yaml"), []byte(r.yRel), 0o644))
 		r.evs = []M{{"ev": "case", "id": pc.ID, "fam": "repro", "pmt": c.Pmt, "sde": c.UseSDE}}
